@@ -830,7 +830,7 @@ fn line(label: &str, stmts: Vec<SStmt>, fail: Fail, has_value: bool, injectable:
     }
 }
 
-pub const ALPHABET: usize = 30;
+pub const ALPHABET: usize = 31;
 
 /// Template `t` at session position `pos` (names are position-based, so never re-declared).
 fn template(t: usize, pos: usize, env: &mut GEnv) -> SLine {
@@ -1057,6 +1057,29 @@ fn template(t: usize, pos: usize, env: &mut GEnv) -> SLine {
                 ),
             }
         }
+        30 => {
+            // a loop at the top level whose body defines a function with a function of its own and calls it
+            let i = format!("i{}", pos);
+            env.globals.push((i.clone(), "int"));
+            line(
+                "loop-with-nested-functions",
+                vec![
+                    st(&format!("stel {} = 0;", i), true),
+                    st(
+                        &format!(
+                            "zolang {i} < 2 {{ {i} = {i} + 1; functie {f}(a) {{ functie binnen(b) {{ stel k = 0; zolang k < b {{ k = k + 1; als k == 1 {{ volgende; }}; }}; [b, k] }}; binnen(a) }}; {f}({i}); }};",
+                            i = i,
+                            f = f
+                        ),
+                        true,
+                    ),
+                    st(&format!("{};", i), false),
+                ],
+                Fail::None,
+                true,
+                false,
+            )
+        }
         28 => match env.latest_any() {
             // an existing global is declared again by a line that fails before the assignment: the
             // earlier declaration and its value stay what they were
@@ -1188,9 +1211,15 @@ impl<'a> SGen<'a> {
                 let again: Vec<Var> = self.globals.iter().filter(|v| v.ty == ty && !(v.ty == Ty::Str && v.min_len > 0)).cloned().collect();
                 if !again.is_empty() && self.rng.chance(1, 8) {
                     let v = self.rng.pick(&again).clone();
-                    let e = self.with_gen(|g| g.expr(&ty, depth));
-                    let e = Self::wrap_int(&ty, e);
-                    return (st(&format!("stel {} = {};", v.name, e), true), None, "redecl");
+                    // (never in terms of itself: should the first declaration have been cut short by
+                    // an injected failure, that would read a variable inside its own initialiser, 4.3 item 2)
+                    for _ in 0..4 {
+                        let e = self.with_gen(|g| g.expr(&ty, depth));
+                        if !idents(&e).contains(&v.name) {
+                            let e = Self::wrap_int(&ty, e);
+                            return (st(&format!("stel {} = {};", v.name, e), true), None, "redecl");
+                        }
+                    }
                 }
                 let name = self.fresh();
                 if ty == Ty::Str && self.rng.chance(1, 2) {
@@ -1329,7 +1358,20 @@ impl<'a> SGen<'a> {
                 2 => format!("als {i} == 1 {{ stel u{i} = [{i}]; volgende; }} anders {{ als {i} > 2 {{ stop; }}; }}; ", i = i),
                 _ => String::new(),
             };
-            let body = format!("{}{}", leave, body);
+            let body = if self.rng.chance(1, 4) {
+                // the body also defines a function with a function of its own and calls it
+                let a = self.counters.1;
+                self.counters.1 += 1;
+                format!(
+                    "{}{} functie f{a}(p) {{ functie binnen(q) {{ stel k = 0; zolang k < 2 {{ k = k + 1; als k == 1 {{ volgende; }}; }}; [q, k] }}; binnen(p) }}; f{a}({i});",
+                    leave,
+                    body,
+                    a = a,
+                    i = i
+                )
+            } else {
+                format!("{}{}", leave, body)
+            };
             let l = line(
                 "loop",
                 vec![
@@ -1795,11 +1837,95 @@ fn directed(i: usize) -> Option<SessionSpec> {
             lines.push(line("read", vec![st("h12[0];", false)], Fail::None, true, true));
             Some(mk(lines))
         }
+        10 => {
+            // lines that declare dozens of globals at once (the globals vector and the symbol table grow
+            // in big steps), lines that fail to compile or fail at run time after declaring dozens more,
+            // then everything that should exist is read and everything that should not is referenced
+            let mut lines = Vec::new();
+            for k in 0..6 {
+                let decls: Vec<SStmt> = (0..40)
+                    .map(|j| st(&format!("stel m{k}x{j} = {};", if j % 3 == 0 { format!("string({})", k * 100 + j) } else if j % 3 == 1 { format!("[{}.5, \"s{}\"]", j, k) } else { format!("{}", k * 100 + j) }, k = k, j = j), true))
+                    .collect();
+                lines.push(line("decl-many", decls, Fail::None, false, k == 2));
+                // fails in the compiler after 30 more declarations
+                let mut bad: Vec<SStmt> = (0..30).map(|j| st(&format!("stel weg{k}x{j} = [{j}, \"w\"];", k = k, j = j), true)).collect();
+                bad.push(st(&format!("onbekend{};", k), false));
+                lines.push(line("compile-fail-after-many-decls", bad, Fail::Compile, false, false));
+                // fails at run time after 10 more declarations
+                let mut half: Vec<SStmt> = (0..10).map(|j| st(&format!("stel half{k}x{j} = string({j});", k = k, j = j), true)).collect();
+                half.push(st("[1][7];", false));
+                lines.push(line("run-fail-after-decls", half, Fail::Run(10), false, false));
+                lines.push(line(
+                    "func-call-value",
+                    vec![st(&format!("functie cc{k}() {{ [m{k}x0, m{k}x1] }};", k = k), true), st(&format!("cc{k}();", k = k), false)],
+                    Fail::None,
+                    true,
+                    true,
+                ));
+            }
+            lines.push(line("read", vec![st("[m0x0, m0x39, m3x1, m5x38, half0x9, half5x0];", false)], Fail::None, true, true));
+            lines.push(line("reference-name-of-failed-line", vec![st("weg3x7;", false)], Fail::Compile, false, false));
+            lines.push(line("read", vec![st("[m5x39, m2x4, half2x2];", false)], Fail::None, true, true));
+            Some(mk(lines))
+        }
+        11 => {
+            // lines with functions inside loops inside functions, early exits at every level, branches as
+            // values: every compilation step of each of them is a crash point (open contexts, scopes,
+            // loop contexts, unpatched jumps), and the lines after them observe what is left
+            let nest = |n: usize| {
+                format!(
+                    "stel n{n} = 0; zolang n{n} < 4 {{ n{n} = n{n} + 1; functie binnen{n}(a) {{ stel r = [a]; zolang a > 0 {{ a = a - 1; als a == 1 {{ volgende; }} anders {{ als a > 5 {{ stop; }}; }}; functie diep(b) {{ als b > 1 {{ antwoord [b, \"d\"]; }}; [b] }}; r = [r, diep(a)]; }}; r }}; als lengte(binnen{n}(n{n})) > 5 {{ stop; }}; }}; n{n};",
+                    n = n
+                )
+            };
+            let mut lines = Vec::new();
+            for n in 0..3 {
+                let text = nest(n);
+                let mut l = line("nested-loops-and-functions", vec![st(&text, true)], Fail::None, true, false);
+                l.stmts = vec![st(&text, true)];
+                lines.push(l);
+                lines.push(line("decl-arr", vec![st(&format!("stel na{} = [\"na\", {}.5];", n, n), true)], Fail::None, false, true));
+                lines.push(line("compile-fail-nested", vec![st(&format!("zolang ja {{ functie f{n}(a) {{ zolang a {{ als a {{ stop; }}; onbekend{n}; }}; }}; }};", n = n), false)], Fail::Compile, false, false));
+                lines.push(line("read", vec![st(&format!("[n{}, na{}];", n, n), false)], Fail::None, true, true));
+            }
+            Some(mk(lines))
+        }
+        12 => {
+            // lines that fail hundreds of calls deep (naturally and by injection), several times; then
+            // lines that call and recurse deeply and must still work: whatever a failed line leaves
+            // behind per frame adds up
+            let mut lines = Vec::new();
+            lines.push(line("decl-arr", vec![st("stel basis = [\"b\", 2.5];", true)], Fail::None, false, true));
+            for k in 0..6 {
+                lines.push(line(
+                    "run-fail-deep",
+                    vec![
+                        st(&format!("functie diep{k}(n) {{ als n < 1 {{ antwoord [basis, 1 + ja]; }}; [n, diep{k}(n - 1)] }};", k = k), true),
+                        st(&format!("diep{}(300);", k), false),
+                    ],
+                    Fail::Run(1),
+                    false,
+                    false,
+                ));
+                lines.push(line(
+                    "recursion-ok",
+                    vec![
+                        st(&format!("functie tel{k}(n) {{ als n < 1 {{ antwoord 0; }}; 1 + tel{k}(n - 1) }};", k = k), true),
+                        st(&format!("tel{}(250);", k), false),
+                    ],
+                    Fail::None,
+                    true,
+                    k == 3,
+                ));
+            }
+            lines.push(line("read", vec![st("basis;", false)], Fail::None, true, true));
+            Some(mk(lines))
+        }
         _ => None,
     }
 }
 
-pub const DIRECTED: u64 = 10;
+pub const DIRECTED: u64 = 13;
 
 /// a short random session (Miri adjunct)
 pub fn small_session(seed: u64, i: u64) -> SessionSpec {
@@ -1818,7 +1944,7 @@ pub fn small_session(seed: u64, i: u64) -> SessionSpec {
 
 /// Quick tier: besides all sessions of length 1-2, every "sandwich" of three lines
 /// (a declaration, any failing template, an observing template) - the length-3 sessions that matter most.
-const SANDWICH_SETUP: &[usize] = &[0, 2, 3];
+const SANDWICH_SETUP: &[usize] = &[0, 2, 3, 30];
 const SANDWICH_FAIL: &[usize] = &[12, 13, 14, 15, 16, 17, 18, 23, 24, 27, 28];
 const SANDWICH_OBSERVE: &[usize] = &[5, 6, 7, 9, 10, 19, 20, 21, 22, 26];
 
@@ -1993,7 +2119,7 @@ pub fn scenario(acc: &mut Acc, seed: u64, index: u64, tier: Tier) {
     if index < DIRECTED {
         let sp = directed(index as usize).unwrap();
         acc.count("directed_sessions", 1);
-        h = explore(acc, &sp, seed, index, index != 0 && index != 9, &mut rng);
+        h = explore(acc, &sp, seed, index, index != 0 && index != 9 && index != 10 && index != 12, &mut rng);
         if index == 2 {
             acc.sample(json!({"directed_session": sp.lines.iter().map(|l| l.text()).collect::<Vec<_>>()}));
         }
